@@ -12,6 +12,12 @@ substance is here, on the real code (metamorphic runs on fitted models and tiny 
         bit for bit; totals agree within summation rounding and are the sums of the per-individual terms;
   (iv)  scipy_minimize with n_jobs = 1 and n_jobs = 2 (fresh loky workers, other PYTHONHASHSEED) returns
         identical IndividualParameters.
+  (v)   recorded programs (`trace_c07.py`, `Model/Trace.lean`): the torch operations the real code executes for every
+        individual-level variable of the State and for one step of `IndividualGibbsSampler.sample` are recorded on every
+        run and sent to Lean: `Trace.rowLocal` must accept the program (then `rowLocal_sound`, `perturb_others`,
+        `perm_equivariant` hold for EVERY input of that shape), the Lean evaluation of the lowered program must reproduce
+        the real tensors, the programs of different cohorts must coincide up to shapes, and each operation instance the
+        table calls row-wise is replayed on random inputs.  A rejected program triggers a targeted failing-input search.
 """
 from __future__ import annotations
 
@@ -22,20 +28,33 @@ import random
 from . import core
 from .core import fmt_float, parse_float, fmt_list, fmt_list2, split_ne
 from . import c03_sampler as s3
+from . import trace_c07 as tr
 
 PROP = "C07"
 LEAN = dict(
     props="LeaspyVerif.Props.C07",
     driver="drivers/C07.lean",
     harness="c07_indep.py",
-    extra_modules=["LeaspyVerif.Model.Indep", "LeaspyVerif.Model.Sampler"],
+    extra_modules=["LeaspyVerif.Model.Indep", "LeaspyVerif.Model.Sampler", "LeaspyVerif.Model.Trace", "LeaspyVerif.Lemmas.Trace"],
     theorems=["term_local", "term_local_set", "term_alone", "terms_permute", "map_perm", "sum_perm",
-              "permute_perm", "total_permute", "total_eq_sum_terms", "addTerms_get", "indStep_local"],
+              "permute_perm", "total_permute", "total_eq_sum_terms", "addTerms_get", "indStep_local",
+              "rowLocal_rel", "rowLocal_sound", "perturb_others", "batch_size_irrelevant", "perm_equivariant",
+              "perm_equivariant_rows", "lower_length", "exMasked_rowLocal", "exMasked_value", "axis0_sum_counterexample",
+              "axis0_sum_alone_counterexample", "misaligned_broadcast_counterexample"],
     trusted_extra=[
-        "PARTIAL inside a proof-level claim: the theorems are list algebra over a model in which the batch is List.map of a "
-        "per-individual function (locality holds by construction); that leaspy's batched tensor code behaves like that map, "
-        "and that joblib process pools do not change results, are runtime facts established only by the metamorphic runs "
-        "(i)-(iv) of this harness on the generated cohorts",
+        "Part 1 of Props/C07.lean is list algebra over a model in which the batch is List.map of a per-individual function "
+        "(locality by construction). Part 2 is about the program recorded from the real code on this run: the theorems hold for "
+        "every input of the recorded shape, every batch size and every interpretation of the row operations",
+        "recorded programs — trusted: (a) the tracer's dataflow reconstruction (tensor identity by id() with every tensor kept "
+        "alive; inputs classified from the State's DAG; population-only sub-computations collapsed into inputs); (b) the table "
+        "Trace.lowerOp + the row functions Trace.fnApply being faithful to torch. Both are validated on every run, not proved: the "
+        "lowered program is evaluated in Lean on the recorded inputs and must reproduce every individual-level tensor of the real "
+        "State (and the sampler's new rows / decisions); each row-wise operation instance is replayed in torch on random inputs",
+        "recorded programs — scope: only executed paths are seen (a branch taken only for other shapes / flags is not in the program); "
+        "python numbers derived from shapes enter as constants and are detected only by comparing the programs of cohorts of "
+        "3, 5 and 48 individuals; whitelisted assertion sites (WeightedTensor.__post_init__, _apply_operation's torch.equal, "
+        "torch.distributions argument validation) may read the whole batch but only raise",
+        "joblib process pools and the float rounding of vectorised reductions are exercised by the metamorphic runs (i)-(iv), not modelled",
         "float32 rounding: 'alone vs batch' and totals are compared through explicit envelopes, everything else bit for bit",
     ],
     assumptions=[
@@ -46,6 +65,13 @@ LEAN = dict(
         "re-ordered batch: per-individual terms within the alone-vs-batch envelope (vectorised reductions make the last bits depend on "
         "the position in the batch), proposals bit for bit, decisions unless |u - alpha| is inside that envelope, MCMC-personalised "
         "parameters within 32 float32 ulps; scipy_minimize (one state per individual) bit for bit",
+        "recorded programs: Lean evaluates on doubles, the code on float32/float64: outputs are compared within 2e-4*(1+|x|) (the "
+        "acceptance ratio alpha = exp(-delta) in the log domain: tol = 2e-4*(1+|log alpha|) + 4e-4*(1+max|nll_attach_ind|+max|nll_regul_ind|) + 1e-3); "
+        "rows of the sampler step whose uniform draw is within alpha*expm1(tol) of a finite alpha are not compared; Bernoulli models: "
+        "each observed cell whose float32 probability is within 1e-4 of 0/1 widens the envelope of nll_attach* by 0.7 (log(1-p) "
+        "amplifies the rounding of p)",
+        "recorded programs: `predictions_<event>` of the joint model (documented single-individual API: normalises by the survival "
+        "at min over the whole tensor of times) is expected to be rejected and is used as a positive control",
     ],
 )
 
@@ -54,10 +80,20 @@ F07A = "F07a"
 
 
 # ----------------------------------------------------------------------------------------------
+# further fitted models whose individual-level computations are recorded in the thorough tier (name -> data kind)
+TRACE_EXTRA = {"joint_no_sources": "joint", "joint_scalar": "joint",
+               "shared_speed_logistic_binary": "binary", "shared_speed_logistic_scalar_noise": "tiny",
+               "logistic_diag_noise_fast_gibbs": "tiny", "logistic_diag_noise_mh": "tiny"}
+
+
+def kind_of(name):
+    return s3.MODELS[name] if name in s3.MODELS else TRACE_EXTRA[name]
+
+
 def base_frame(env, name):
     pd = env.pd
     root = core.REPO / s3.D_ROOT / "data_mock"
-    kind = s3.MODELS[name]
+    kind = kind_of(name)
     if kind.startswith("joint"):
         df = pd.read_csv(root / "data_tiny_joint.csv", dtype={"ID": str}, sep=";")
         if kind.endswith("uni"):
@@ -76,7 +112,7 @@ def load_model(env, name):
 
 
 def to_data(env, name, df):
-    if s3.MODELS[name].startswith("joint"):
+    if kind_of(name).startswith("joint"):
         # as scipy_minimize does for its single-individual datasets: the number of event types comes from the model
         return env.Data.from_dataframe(df, data_type="joint", factory_kws={"nb_events": 1})
     return env.Data.from_dataframe(df)
@@ -94,7 +130,7 @@ def perturb_others(env, name, df, keep, seed):
     """Replace the observed values of every individual not in `keep` (visit ages untouched)."""
     rng = random.Random(f"perturb:{seed}")
     df = df.copy()
-    binary = s3.MODELS[name] == "binary"
+    binary = kind_of(name) == "binary"
     for c in feature_cols(df):
         vals = []
         for i, v in zip(df["ID"], df[c]):
@@ -638,9 +674,670 @@ def case_njobs(chk, env, name, seed, hash_seeds):
             os.environ["PYTHONHASHSEED"] = old
 
 
+
+# ---------------------------------------------------------------------------------------------- (v) recorded programs
+TR_RTOL = 2e-4
+EXPECTED_NONLOCAL = ("predictions_",)     # documented single-individual API of the joint model (positive control)
+TRACE_MODELS = list(s3.MODELS)            # every kind C03 builds, the hard-coded mixture included
+
+
+def load_model_any(env, name):
+    sub = name if "/" in name else f"from_fit/{name}"
+    return env.BaseModel.load(str(core.REPO / s3.D_ROOT / "model_parameters" / f"{sub}.json"))
+
+
+def cohort_frame_rep(env, df, ids):
+    """The cohort in the order `ids`; an id `x~k` is a copy of individual `x` under a new ID (to reach large batches)."""
+    parts = []
+    for i in ids:
+        d = df[df["ID"] == i.split("~")[0]].copy()
+        d["ID"] = i
+        parts.append(d)
+    return env.pd.concat(parts, ignore_index=True)
+
+
+def punch_holes(env, name, cdf, seed):
+    """Missing values: at most one feature per visit is removed (multivariate kinds only, so that no visit disappears)."""
+    cols = feature_cols(cdf)
+    if len(cols) < 2:
+        return cdf
+    r = random.Random(f"holes:{seed}")
+    cdf = cdf.copy()
+    for c in cols:
+        cdf[c] = cdf[c].astype(float)
+    for k in range(len(cdf)):
+        if r.random() < 0.3:
+            cdf.loc[cdf.index[k], r.choice(cols)] = float("nan")
+    return cdf
+
+
+def reset_state(env, model, ds, state, lat):
+    """(Re-)put the data and the individual latent values: every individual-level value of the State is invalidated."""
+    with state.auto_fork(None):
+        model.put_data_variables(state, ds)
+        for v, t in lat.items():
+            state[v] = t.clone()
+
+
+def trace_state(env, name, cdf, ids, seed, seed_of=None):
+    """A real State of the fitted model `name` holding the cohort frame `cdf` (individuals `ids`, in that order) and
+    deterministic latent values that follow the individual (seeded by `seed_of(id)`, default `seed`)."""
+    torch = env.torch
+    model = load_model_any(env, name)
+    ds = env.Dataset(to_data(env, name, cdf))
+    if list(ds.indices) != list(ids):
+        raise AssertionError(f"dataset order {list(ds.indices)} != {list(ids)}")
+    algo = env.algorithm_factory(env.AlgorithmSettings("mcmc_saem" if "/" in name else "mean_posterior", n_iter=10, seed=0,
+                                                       progress_bar=False))
+    state = algo._initialize_algo(model, ds)
+    ind_vars = sorted(state.dag.sorted_variables_by_type[env.IndividualLatentVariable])
+    lat = {}
+    for v in ind_vars:
+        cur = state[v]
+        k = int(cur[0].numel())
+        rows = []
+        for i in ids:
+            r = random.Random(f"trlat:{seed if seed_of is None else seed_of(i)}:{i}:{v}")
+            t0 = float(cdf[cdf["ID"] == i]["TIME"].min())
+            if v == "tau":
+                rows.append([t0 + r.uniform(-3.0, 4.0) for _ in range(k)])
+            elif v == "xi":
+                rows.append([r.uniform(-0.6, 0.6) for _ in range(k)])
+            else:
+                rows.append([r.uniform(-1.2, 1.2) for _ in range(k)])
+        lat[v] = torch.tensor(rows, dtype=cur.dtype).reshape(cur.shape)
+    reset_state(env, model, ds, state, lat)
+    return model, ds, algo, state, ind_vars, lat
+
+
+class Rec:
+    """One recorded computation: the tracer, the outputs (label, node, tensor, required) and what is needed to report."""
+
+    def __init__(self, what, n, T, outs, extra=None):
+        self.what, self.n, self.T, self.outs, self.extra = what, n, T, outs, extra or {}
+
+    def prog(self, required=None):
+        o = [nd for (_, nd, _, req) in self.outs if required is None or req == required]
+        return self.T.program(o)
+
+    def eval_outs(self):
+        """Outputs compared with the real tensors: the individual-level ones and the population totals (they exercise the
+        aggregating semantics: sums over all individuals)."""
+        return list(self.outs) + [(lab, nd, t, False) for (lab, nd, t) in self.extra.get("totals", [])]
+
+
+def saturation(env, state):
+    """Bernoulli observation models only: number of observed cells whose float32 probability is within 1e-4 of 0 or 1.  There
+    log(1 - p) amplifies the float32 rounding of p (up to ln 2 per cell before the clamp at 2^-23 takes over): the double
+    evaluation in Lean is then compared with a correspondingly wider envelope."""
+    torch = env.torch
+    try:
+        m, y = state["model"], state["y"]
+        m = m if isinstance(m, torch.Tensor) else m.value
+        if not bool(((y.value == 0) | (y.value == 1) | (y.weight == 0)).all()):
+            return 0            # not binary data
+        mm = m.detach()[y.weight != 0]
+        return int((torch.minimum(mm, 1 - mm) < 1e-4).sum())
+    except Exception:  # noqa
+        return 0
+
+
+def trace_terms(env, state, n):
+    """Every individual-level linked variable of the State, computed by the real code under the tracer."""
+    leafmap, keep, indiv, roots = tr.state_leafmap(env, state)
+    names = [k for k in state.dag if k in indiv and k not in roots]
+    T = tr.Tracer(n, leafmap, keep)
+    vals = {}
+    with T:
+        for k in names:
+            vals[k] = state[k]
+    outs, totals = [], []
+    for k in names:
+        for suf, t in tr.tensors_of(vals[k]):
+            if t.dim() >= 1 and t.shape[0] == n:
+                outs.append((k + suf, T.out_node(t), t, not k.startswith(EXPECTED_NONLOCAL)))
+            else:
+                totals.append((k + suf, T.out_node(t), t))
+    return Rec("terms", n, T, outs, {"totals": totals, "sat": saturation(env, state)})
+
+
+def trace_sampler(env, algo, state, v, n, tinv):
+    """One `IndividualGibbsSampler.sample` step of variable `v` under the tracer (draws = individual-level inputs)."""
+    smp = algo.samplers[v]
+    leafmap, keep, _, _ = tr.state_leafmap(env, state)
+    leafmap[id(smp.std)] = ("I", f"std:{v}")
+    got = {}
+    o1, o2 = smp._update_acceptation_rate, smp._group_metropolis_step
+
+    def upd(acc):
+        got["accepted"] = acc
+        return o1(acc)
+
+    def gms(alpha):
+        got["alpha"] = alpha
+        return o2(alpha)
+    smp._update_acceptation_rate, smp._group_metropolis_step = upd, gms
+    T = tr.Tracer(n, leafmap, keep + [smp.std])
+    try:
+        with T:
+            smp.sample(state, temperature_inv=tinv)
+    finally:
+        del smp._update_acceptation_rate, smp._group_metropolis_step
+    outs = [(f"{v}:new", T.out_node(state._values[v]), state._values[v], True)]
+    for k in ("accepted", "alpha"):
+        if k in got:
+            outs.append((f"{v}:{k}", T.out_node(got[k]), got[k], True))
+    u = [T.leaf_vals["I"][nd.k] for nd in T.nodes if nd.kind == "I" and nd.name == "draw:rand"]
+    # magnitude of the float32 sums whose difference is exponentiated (for the comparison envelope of alpha)
+    scale = 0.0
+    for k in ("nll_attach_ind", f"nll_regul_{v}_ind"):
+        x = state[k]
+        x = x if isinstance(x, env.torch.Tensor) else x.value
+        scale += float(x.detach().abs().max())
+    return Rec(f"sampler:{v}", n, T, outs, {"u": u[-1] if u else None, "alpha": got.get("alpha"), "var": v, "tinv": tinv,
+                                              "scale": scale + 3500.0 * saturation(env, state)})
+
+
+def log_tol(env, alpha, scale):
+    """Envelope of log(alpha) = -(float32 differences of sums of magnitude `scale`): relative part + rounding of the sums."""
+    la = alpha.detach().double().clamp(min=1e-300).log().abs()
+    return TR_RTOL * (1 + la) + 2 * TR_RTOL * (1 + scale) + 1e-3
+
+
+def tensor_close(env, lean_vals, t, rows_skip=(), log_domain=None, extra_abs=0.0):
+    """Lean's doubles against the real tensor (flattened); returns None or a description of the first difference.
+    `log_domain` (a scale): the value is exp(-(float32 sums)) — its relative error is the absolute error of the exponent —
+    compare logs within `log_tol`."""
+    torch = env.torch
+    tv = t.detach().to(torch.float64)
+    if len(lean_vals) != tv.numel():
+        return f"{len(lean_vals)} values for shape {tuple(t.shape)}"
+    lv = torch.tensor(lean_vals, dtype=torch.float64).reshape(tv.shape)
+    ok = ((lv - tv).abs() <= TR_RTOL * (1 + tv.abs()) + extra_abs) | (lv == tv) | (lv.isnan() & tv.isnan())
+    if log_domain is not None:
+        ll, lt = lv.clamp(min=1e-300).log(), tv.clamp(min=1e-300).log()
+        ok = ok | ((ll - lt).abs() <= log_tol(env, tv, log_domain))
+    for j in rows_skip:
+        ok[j] = True
+    if bool(ok.all()):
+        return None
+    idx = (~ok).nonzero()[0].tolist()
+    return f"at {idx}: lean {float(lv[tuple(idx)])!r} vs torch {float(tv[tuple(idx)])!r}"
+
+
+def validate_ops(chk, env, rec, modes, batched, seen, case):
+    """Replay every distinct operation instance that the table lowers row-wise (`r`) on random inputs of the recorded
+    shapes: row j of the result must not change when the other rows of the batched arguments are re-drawn, must follow
+    a re-ordering, and (for operations whose call does not mention the batch size) must be what the row alone gives."""
+    torch = env.torch
+    T, n = rec.T, rec.n
+    import zlib
+    j = 1 if n > 1 else 0
+    for i, nd in enumerate(T.nodes):
+        if nd.kind != "O" or nd.call is None or modes[i] not in "rw":
+            continue
+        func, args, kwargs = nd.call
+        flat = []
+
+        def walk(x):
+            if isinstance(x, torch.Tensor):
+                flat.append(x)
+            elif isinstance(x, (list, tuple)):
+                for y in x:
+                    walk(y)
+        walk(args)
+        walk(list(kwargs.values()))
+        isb = {}
+        for t in flat:
+            k = T.node_of_id.get(id(t))
+            isb[id(t)] = (k is not None and batched[k] == "1")
+        key = (nd.op, nd.params, modes[i], tuple((tuple(t.shape), str(t.dtype), isb[id(t)]) for t in flat))
+        if key in seen:
+            continue
+        seen.add(key)
+        g = torch.Generator().manual_seed(zlib.crc32(repr(key).encode()))
+
+        def rnd(t):
+            if t.dtype == torch.bool:
+                return torch.rand(t.shape, generator=g) < 0.5
+            if t.dtype.is_floating_point:
+                return (torch.rand(t.shape, generator=g, dtype=torch.float64) * 1.5 + 0.25).to(t.dtype)
+            return torch.randint(0, 3, t.shape, generator=g).to(t.dtype)
+        A = {id(t): rnd(t) for t in flat if isb[id(t)]}
+        B = {}
+        for k_, a in A.items():
+            b = a.clone()
+            fresh = rnd(a)
+            for r_ in range(n):
+                if r_ != j:
+                    b[r_] = fresh[r_]
+            B[k_] = b
+        perm = list(range(n))[::-1]
+        C = {k_: a[perm] for k_, a in A.items()}
+        alone = {k_: a[[j]] for k_, a in A.items()}
+
+        def sub(x, m):
+            if isinstance(x, torch.Tensor):
+                return m.get(id(x), x)
+            if isinstance(x, (list, tuple)):
+                return type(x)(sub(y, m) for y in x)
+            return x
+
+        def call(m):
+            o = func(*sub(args, m), **{k_: sub(v, m) for k_, v in kwargs.items()})
+            return [o] if isinstance(o, torch.Tensor) else [y for y in o if isinstance(y, torch.Tensor)]
+        try:
+            oa, ob, oc = call(A), call(B), call(C)
+        except Exception as e:  # noqa
+            chk.tag("trace_op_replay", f"error:{nd.op}:{type(e).__name__}")
+            continue
+        eq = lambda x, y: x.shape == y.shape and bool(((x == y) | (x.isnan() & y.isnan()) if x.dtype.is_floating_point else (x == y)).all())  # noqa
+        cl = lambda x, y: x.shape == y.shape and bool(torch.isclose(x.double(), y.double(), rtol=1e-4, atol=1e-6, equal_nan=True).all())  # noqa
+        rowed = all(o.dim() >= 1 and o.shape[0] == n for o in oa)
+        local = rowed and all(eq(x[j], y[j]) for x, y in zip(oa, ob)) and all(cl(z, x[perm]) for x, z in zip(oa, oc))
+        if local and nd.op not in ("view", "expand"):
+            try:
+                ol = call(alone)
+                local = all(cl(x[j], y[0]) for x, y in zip(oa, ol))
+            except Exception:  # noqa  (the call mentions the batch size)
+                chk.tag("trace_op_replay", f"alone-not-applicable:{nd.op}")
+        if modes[i] == "r":
+            chk.tag("trace_op_replay", "row-wise:confirmed" if local else "row-wise:REFUTED")
+            if not local:
+                chk.disagree(dict(case, node=i, op=nd.text()), "row j of the result depends on other rows / on the position / on the batch size",
+                             "row-wise", f"operation table: {nd.op} {nd.params} on {key[3]} is lowered row-wise but the torch operation is not")
+        else:
+            chk.tag("trace_op_replay", "whole:non-local" if not local else "whole:conservative")
+
+
+
+def synthetic_programs(torch):
+    """Small torch functions of x (n,4,3), y (n,3), m (n,3) bool — individual-level — and p (3,), q (1,3), w (3,2) — population-level:
+    (name, function, expected row-local).  They exercise table entries the current leaspy code may not execute."""
+    F = torch.nn.functional
+    return [
+        ("ew-broadcast", lambda x, y, m, p, q, w: (x * p + y[:, None, :]) / (1 + q.exp()), True),
+        ("sum-last", lambda x, y, m, p, q, w: x.sum(dim=-1) + y.sum(dim=1, keepdim=True), True),
+        ("sum-tuple", lambda x, y, m, p, q, w: x.sum(dim=(1, 2)), True),
+        ("mean-max", lambda x, y, m, p, q, w: x.mean(dim=2).amax(dim=1) - y.amin(dim=-1), True),
+        ("where-mask", lambda x, y, m, p, q, w: torch.where(m, y, p).masked_fill(~m, 0.0), True),
+        ("softmax-row", lambda x, y, m, p, q, w: F.softmax(y * 2, dim=1) * torch.softmax(x, -1).sum(1), True),
+        ("cumsum-row", lambda x, y, m, p, q, w: x.cumsum(dim=1)[:, -1, :] + y.cumsum(-1), True),
+        ("matmul", lambda x, y, m, p, q, w: (y @ w).sum(-1, keepdim=True) + (x @ w)[:, 0, :1], True),
+        ("stack-cat", lambda x, y, m, p, q, w: torch.cat([torch.stack([y, y * 2], dim=1), x], dim=1).sum(1), True),
+        ("views", lambda x, y, m, p, q, w: x.reshape(x.shape[0], -1).view(x.shape[0], 3, 4).transpose(1, 2).unsqueeze(-1).squeeze(-1)[..., 0], True),
+        ("expand-row", lambda x, y, m, p, q, w: y.unsqueeze(1).expand(-1, 4, -1) * x + q.expand(4, 3), True),
+        ("slices", lambda x, y, m, p, q, w: x[:, 1:3, ::2].sum((1, 2)) + y[:, -1] + x[:, 0, 1], True),
+        ("clamp-pow", lambda x, y, m, p, q, w: torch.clamp(y, min=0.4, max=1.2) ** 2 + y.abs().sqrt() + torch.log1p(y) - torch.sigmoid(-y), True),
+        ("cmp-logic", lambda x, y, m, p, q, w: ((y > p) & m | (y <= 0.5)).float() + (y != y).to(torch.float32), True),
+        # not row-local
+        ("sum-axis0", lambda x, y, m, p, q, w: y - y.sum(dim=0), False),
+        ("mean-all", lambda x, y, m, p, q, w: y / y.mean(), False),
+        ("max-axis0-keep", lambda x, y, m, p, q, w: x - x.amax(dim=0, keepdim=True), False),
+        ("cumsum-axis0", lambda x, y, m, p, q, w: y.cumsum(dim=0), False),
+        ("softmax-axis0", lambda x, y, m, p, q, w: torch.softmax(y, dim=0), False),
+        ("index-axis0", lambda x, y, m, p, q, w: y - y[0], False),
+        ("slice-axis0", lambda x, y, m, p, q, w: torch.cat([y[1:], y[:1]], dim=0), False),
+        ("transpose-axis0", lambda x, y, m, p, q, w: (y.t() @ y)[None, :, 0] + y, False),
+        ("misaligned", lambda x, y, m, p, q, w: y.sum(1) * y.sum(1)[:, None], False),
+        ("expand-new-axis0", lambda x, y, m, p, q, w: y.expand(2, -1, -1).sum(0) + y.flatten()[:3], False),
+        ("stack-axis0", lambda x, y, m, p, q, w: torch.stack([y, y], dim=0).sum(1)[0] + y, False),
+    ]
+
+
+def case_synthetic(chk, env, lines, expect):
+    torch = env.torch
+    for n in (3, 5):
+        g = torch.Generator().manual_seed(1000 + n)
+        x = torch.rand((n, 4, 3), generator=g) + 0.25
+        y = torch.rand((n, 3), generator=g) + 0.25
+        m = torch.rand((n, 3), generator=g) < 0.6
+        p, q, w = torch.rand(3, generator=g) + 0.25, torch.rand((1, 3), generator=g), torch.rand((3, 2), generator=g)
+        ins = (x, y, m, p, q, w)
+        leafmap = {id(x): ("I", "x"), id(y): ("I", "y"), id(m): ("I", "m"), id(p): ("P", "p"), id(q): ("P", "q"), id(w): ("P", "w")}
+        for name, f, local in synthetic_programs(torch):
+            case = {"kind": "trace-synthetic", "program": name, "n": n}
+            try:
+                T = tr.Tracer(n, leafmap, list(ins))
+                with T:
+                    out = f(*ins)
+                # empirical locality on the real function: other rows re-drawn
+                j = 1
+                x2, y2 = x.clone(), y.clone()
+                m2 = m.clone()
+                for r_ in range(n):
+                    if r_ != j:
+                        x2[r_] = torch.rand((4, 3), generator=g) + 0.25
+                        y2[r_] = torch.rand(3, generator=g) + 0.25
+                        m2[r_] = torch.rand(3, generator=g) < 0.6
+                out2 = f(x2, y2, m2, p, q, w)
+                emp = out.dim() >= 1 and out.shape[0] == n and bool((out[j] == out2[j]).all())
+            except Exception as e:  # noqa
+                chk.disagree(case, "ran", f"{type(e).__name__}: {str(e)[:100]}", "synthetic program could not be recorded")
+                continue
+            rec = Rec("synthetic:" + name, n, T, [(name, T.out_node(out), out, True)], {"expected_local": local, "empirical_local": emp})
+            info = {"rec": rec, "case": case}
+            lines.append("trace " + rec.prog(True))
+            expect.append(("trace-syn", case, info))
+            kind, line = eval_request(rec)
+            lines.append(line)
+            expect.append((kind, case, info))
+            chk.case(("trace-syn", name, n), nontrivial=True, tags={"kind": "trace-synthetic"})
+
+
+def trace_requests(rec):
+    """Request lines for one recorded computation: analysis of the required outputs, of the control outputs, evaluation."""
+    lines = [("trace", "trace " + rec.prog(True))]
+    if any(not req for (_, _, _, req) in rec.outs):
+        lines.append(("tracectl", "trace " + rec.prog(False)))
+    return lines
+
+
+def eval_request(rec):
+    return ("evaltrace", f"evaltrace n={rec.n} " + rec.T.program([nd for (_, nd, _, _) in rec.eval_outs()]) + " " + rec.T.leaf_data())
+
+
+def eval_named(env, name, cdf, ids, seed, labels, seed_of=None):
+    """Values of the State variables `labels` (`name`, `name.value`, `name.weight`) for the cohort."""
+    torch = env.torch
+    _, _, _, state, _, _ = trace_state(env, name, cdf, ids, seed, seed_of)
+    out = {}
+    for lab in labels:
+        base, _, suf = lab.partition(".")
+        v = state[base]
+        t = v if isinstance(v, torch.Tensor) else getattr(v, suf or "value")
+        out[lab] = t.detach().clone()
+    return out
+
+
+def overlap(env, a, b):
+    """Common leading block of two tensors of the same rank (padding may differ between cohorts)."""
+    if a.dim() != b.dim():
+        return None, None
+    sl = tuple(slice(0, min(x, y)) for x, y in zip(a.shape, b.shape))
+    return a[sl], b[sl]
+
+
+def search_terms(env, name, df, ids, seed, labels):
+    """Targeted failing-input search for individual-level State variables that the analysis rejected: (1) replace the data
+    and the latent values of the other individuals, (2) re-order, (3) the individual alone, (4) the same individual inside
+    a batch of 48.  Returns (description, details) of the first concrete failure, or None."""
+    torch = env.torch
+    n = len(ids)
+    jk = 1 if n > 1 else 0
+    keep = [ids[jk]]
+    cdf = cohort_frame_rep(env, df, ids)
+    with core.quiet():
+        base = eval_named(env, name, cdf, ids, seed, labels)
+    big = lambda a, b, tol: bool(((a.double() - b.double()).abs() > tol * (1 + b.double().abs())).any())  # noqa
+    for trial in range(3):
+        ps = seed + 7919 * (trial + 1)
+        try:
+            with core.quiet():
+                pdf = perturb_others(env, name, cdf, set(keep), ps)
+                pert = eval_named(env, name, pdf, ids, seed, labels, seed_of=lambda i: seed if i in keep else ps)
+        except Exception:  # noqa
+            continue
+        for lab in labels:
+            if row_bits(env, base[lab], jk) != row_bits(env, pert[lab], jk):
+                return (f"{lab} of individual {keep[0]} changed ({s3.fl(base[lab][jk])[:4]} -> {s3.fl(pert[lab][jk])[:4]}) when only the data and "
+                        f"latent values of the other individuals {[i for i in ids if i not in keep]} were replaced",
+                        {"search": "others-replaced", "ids": ids, "keep": keep, "perturb_seed": ps})
+    perm = list(range(n))[::-1]
+    if perm != list(range(n)):
+        pids = [ids[k] for k in perm]
+        with core.quiet():
+            pv = eval_named(env, name, cohort_frame_rep(env, df, pids), pids, seed, labels)
+        for lab in labels:
+            a, b = overlap(env, pv[lab][perm.index(jk)], base[lab][jk])
+            if a is None or big(a, b, 5e-5):
+                return (f"{lab} of individual {keep[0]} differs between order {ids} and order {pids}",
+                        {"search": "re-ordered", "ids": ids, "pids": pids})
+    with core.quiet():
+        al = eval_named(env, name, cohort_frame_rep(env, df, keep), keep, seed, labels)
+    for lab in labels:
+        a, b = overlap(env, al[lab][0], base[lab][jk])
+        if a is None or big(a, b, 5e-5):
+            return (f"{lab} of individual {keep[0]} alone {s3.fl(a)[:4] if a is not None else '?'} differs from its value in the batch {ids} "
+                    f"{s3.fl(b)[:4] if b is not None else '?'}", {"search": "alone", "ids": ids, "keep": keep})
+    all_ids = list(dict.fromkeys(df["ID"]))
+    bids = list(ids) + [f"{i}~{k}" for k in range(3) for i in all_ids][: 48 - n]
+    with core.quiet():
+        bg = eval_named(env, name, cohort_frame_rep(env, df, bids), bids, seed, labels)
+    for lab in labels:
+        a, b = overlap(env, bg[lab][jk], base[lab][jk])
+        if a is None or big(a, b, 5e-5):
+            return (f"{lab} of individual {keep[0]} in a batch of {len(bids)} {s3.fl(a)[:4] if a is not None else '?'} differs from its value in "
+                    f"the batch {ids} {s3.fl(b)[:4] if b is not None else '?'}", {"search": "batch-of-48", "ids": ids, "big": len(bids)})
+    return None
+
+
+def search_sampler(env, name, df, ids, seed, v, tinv):
+    """Targeted search for one sampler step: same draws by position, the others' data / latent values / std replaced."""
+    torch = env.torch
+    n = len(ids)
+    jk = 1 if n > 1 else 0
+    keep = [ids[jk]]
+    cdf = cohort_frame_rep(env, df, ids)
+
+    def step(frame, seed_of, tape):
+        model, ds, algo, state, ind_vars, lat = trace_state(env, name, frame, ids, seed, seed_of)
+        smp = algo.samplers[v]
+        smp.std = torch.tensor([math.exp(random.Random(f"trstd:{seed if seed_of is None else seed_of(i)}:{i}").uniform(-2.0, 0.5))
+                                for i in ids], dtype=smp.std.dtype)
+        with Tape(env, tape, (lambda k, tp: tp[k]) if tape is not None else None) as tp:
+            smp.sample(state, temperature_inv=tinv)
+        return state._values[v].detach().clone(), smp.acceptation_history[-1].detach().clone(), tp
+    with core.quiet():
+        torch.manual_seed(seed)
+        f0, a0, tp0 = step(cdf, None, None)
+    for trial in range(3):
+        ps = seed + 104729 * (trial + 1)
+        try:
+            with core.quiet():
+                pdf = perturb_others(env, name, cdf, set(keep), ps)
+                f1, a1, tp1 = step(pdf, lambda i: seed if i in keep else ps, tp0.rec)
+        except Exception:  # noqa
+            continue
+        if tp1.mismatch:
+            return (f"sampler of {v}: draws are not position-indexed: {tp1.mismatch[0]}", {"search": "sampler-others-replaced", "ids": ids})
+        if row_bits(env, f0, jk) != row_bits(env, f1, jk) or bool(a0[jk] != a1[jk]):
+            return (f"sampler step of {v}: new row / decision of individual {keep[0]} changed ({s3.fl(f0[jk])} acc {float(a0[jk])} -> {s3.fl(f1[jk])} "
+                    f"acc {float(a1[jk])}) when only the data, latent values and std of the other individuals were replaced (same draws by position)",
+                    {"search": "sampler-others-replaced", "ids": ids, "keep": keep, "perturb_seed": ps, "var": v, "tinv": tinv})
+    return None
+
+
+def case_trace(chk, env, name, seed, lines, expect, with_eval=True, samplers=1, big=True):
+    """(v) record the individual-level computations of model `name` on three cohorts and queue the Lean requests."""
+    rng = random.Random(f"C07:trace:{name}:{seed}")
+    case = {"kind": "trace", "model": name, "seed": seed}
+    try:
+        df = base_frame(env, name)
+        all_ids = list(dict.fromkeys(df["ID"]))
+        idsA = rng.sample(all_ids, 3)
+        idsB = rng.sample([i for i in all_ids if i not in idsA], 5)
+        idsC = (rng.sample(all_ids, len(all_ids)) + [f"{i}~{k}" for k in range(2) for i in all_ids])[:48]
+        tinv = rng.choice([1.0, 0.5, 0.1])
+        case.update(idsA=idsA, idsB=idsB, tinv=tinv)
+        recs = []
+        cohorts = [("A", idsA, False), ("B", idsB, True)] + ([("C", idsC, False)] if big else [])
+        for tag, ids, holes in cohorts:
+            with core.quiet():
+                cdf = cohort_frame_rep(env, df, ids)
+                if holes:
+                    cdf = punch_holes(env, name, cdf, seed)
+                model, ds, algo, state, ind_vars, lat = trace_state(env, name, cdf, ids, seed)
+                rec = trace_terms(env, state, len(ids))
+                rec.extra.update(cohort=tag, ids=ids)
+                recs.append(rec)
+                vs = list(ind_vars)
+                rng.shuffle(vs)
+                for v in (vs[:samplers] if tag == "A" else (vs[:1] if tag == "C" and samplers else [])):
+                    reset_state(env, model, ds, state, lat)
+                    smp = algo.samplers[v]
+                    smp.std = env.torch.tensor([math.exp(random.Random(f"trstd:{seed}:{i}").uniform(-2.0, 0.5)) for i in ids], dtype=smp.std.dtype)
+                    env.torch.manual_seed(seed)
+                    r2 = trace_sampler(env, algo, state, v, len(ids), tinv)
+                    r2.extra.update(cohort=tag, ids=ids)
+                    recs.append(r2)
+    except Exception as e:  # noqa
+        chk.impl_failure(case, f"recording the individual-level computations failed: {s3.err_class(env, e)}: {type(e).__name__}: {str(e)[:200]}")
+        chk.case(("trace", name, seed), nontrivial=False, tags={"kind": "trace", "outcome": "error"})
+        return
+    # the programs of the cohorts must coincide up to shapes (data-dependent control flow, numbers derived from shapes)
+    by_what = {}
+    for r in recs:
+        by_what.setdefault(r.what, []).append(r)
+    for what, rs in by_what.items():
+        sk0 = rs[0].T.skeleton()
+        for r in rs[1:]:
+            sk = r.T.skeleton()
+            same = sk == sk0
+            chk.tag("trace_programs_across_cohorts", "identical-up-to-shapes" if same else "DIFFERENT")
+            if not same:
+                k = next((q for q, (x, y) in enumerate(zip(sk0, sk)) if x != y), min(len(sk0), len(sk)))
+                info = {"rec": rs[0], "name": name, "df": df, "seed": seed, "case": case,
+                        "diff": f"{what}: first difference at node {k}: cohort {rs[0].extra['cohort']} (n={rs[0].n}) "
+                                f"`{sk0[k] if k < len(sk0) else '-'}` vs cohort {r.extra['cohort']} (n={r.n}) `{sk[k] if k < len(sk) else '-'}`"}
+                expect.append(("trace-skeleton", case, info))
+                lines.append("trace " + rs[0].prog(True))
+    for r in recs:
+        info = {"rec": r, "name": name, "df": df, "seed": seed, "case": dict(case, what=r.what, cohort=r.extra["cohort"], n=r.n)}
+        for kind, line in trace_requests(r):
+            lines.append(line)
+            expect.append((kind, info["case"], info))
+        if with_eval and r.n <= 5 and (r.extra["cohort"] == "A" or r.what == "terms"):
+            kind, line = eval_request(r)
+            lines.append(line)
+            expect.append((kind, info["case"], info))
+        chk.tag("trace_nodes", f"{r.what.split(':')[0]}:{10 * (len(r.T.nodes) // 10)}+")
+        for k_, c in r.T.unknown_ops.items():
+            chk.tag("trace_unknown_op", k_, c)
+    chk.case(("trace", name, seed), nontrivial=True, sample=case if len(chk.samples) < 6 else None,
+             tags={"kind": "trace", "model": name})
+
+
+def handle_trace_response(chk, env, resp, kind, case, info, seen_ops):
+    rec = info["rec"]
+    parts = dict(p.split("=", 1) for p in resp.split(" ")) if "=" in resp else {}
+    if kind == "trace-skeleton":
+        found = None
+        try:
+            found = search_terms(env, info["name"], info["df"], rec.extra["ids"], info["seed"], [l for (l, _, _, req) in rec.outs if req][:40]) \
+                if rec.what == "terms" else None
+        except Exception as e:  # noqa
+            chk.note(f"targeted search failed: {type(e).__name__}: {str(e)[:100]}")
+        if found:
+            chk.impl_failure(dict(case, **found[1]), f"the recorded programs differ between cohorts ({info['diff']}) and: {found[0]}")
+        else:
+            chk.disagree(case, info["diff"], "one program for every cohort", "the operations executed for the individual-level outputs depend on "
+                         "the cohort (data-dependent control flow or a number derived from the batch shape): the recorded program does not cover other inputs")
+        return
+    if kind == "trace-syn":
+        ok = parts.get("rowlocal") == "1"
+        exp_, emp = rec.extra["expected_local"], rec.extra["empirical_local"]
+        chk.tag("trace_synthetic", f"{'local' if exp_ else 'non-local'}:{'accepted' if ok else 'rejected'}")
+        if parts.get("unsupported", "_") != "_":
+            chk.tag("trace_synthetic_unsupported", parts["unsupported"])
+        if ok and not emp:
+            chk.disagree(case, "row j changes when other rows are re-drawn", resp[:200], "operation table: the analysis accepts a program that is not row-local")
+        elif ok != exp_:
+            chk.disagree(case, f"expected rowlocal={int(exp_)}", resp[:200], "operation table: verdict on a synthetic program")
+        return
+    if kind == "trace":
+        ok = parts.get("rowlocal") == "1"
+        chk.tag("trace_rowlocal", f"{rec.what.split(':')[0]}:{'1' if ok else '0'}")
+        for nd in rec.T.nodes:
+            if nd.kind == "E":
+                chk.tag("trace_python_escapes", ("assert:" if nd.is_assert else "ESCAPE:") + nd.site.split("<")[0])
+        if "modes" in parts:
+            try:
+                validate_ops(chk, env, rec, parts["modes"], parts["batched"], seen_ops, case)
+            except Exception as e:  # noqa
+                chk.note(f"operation replay failed: {type(e).__name__}: {str(e)[:120]}")
+        if ok:
+            return
+        fb = parts.get("firstbad", "?")
+        try:
+            k = int(fb.split(":")[0])
+            node_txt = rec.T.nodes[k].text()[:160] + (f" @ {rec.T.nodes[k].site}" if rec.T.nodes[k].kind == "E" else "")
+        except Exception:  # noqa
+            k, node_txt = None, "?"
+        # which required outputs are not row-local: ask per output is not needed — the search is run on all required labels
+        labels = [l for (l, _, _, req) in rec.outs if req]
+        found = None
+        try:
+            if rec.what == "terms":
+                found = search_terms(env, info["name"], info["df"], rec.extra["ids"], info["seed"], labels[:40])
+            else:
+                found = search_sampler(env, info["name"], info["df"], rec.extra["ids"], info["seed"], rec.extra["var"], rec.extra["tinv"])
+        except Exception as e:  # noqa
+            chk.note(f"targeted search failed: {type(e).__name__}: {str(e)[:100]}")
+        what = (f"recorded program of {rec.what} (cohort of {rec.n}) is not row-local: first offending node {fb} `{node_txt}`")
+        if found:
+            chk.impl_failure(dict(case, firstbad=fb, node=node_txt, **found[1]), f"{what}; concrete failing input: {found[0]}")
+        else:
+            chk.disagree(dict(case, firstbad=fb, node=node_txt), "rowlocal=1 required for every individual-level output", resp[:300], what)
+        return
+    if kind == "tracectl":
+        ok = parts.get("rowlocal") == "0"
+        chk.tag("trace_positive_control", "rejected" if ok else "ACCEPTED")
+        if not ok:
+            chk.disagree(case, "predictions_<event> reads the minimum over all individuals", resp[:200],
+                         "positive control: the analysis accepted a variable that is known to depend on the whole batch")
+        return
+    # evaltrace
+    if not resp.startswith("out="):
+        chk.disagree(case, "values", resp[:200], "the lowered program could not be evaluated")
+        return
+    skip = ()
+    if rec.what.startswith("sampler") and rec.extra.get("u") is not None and rec.extra.get("alpha") is not None:
+        u, al = rec.extra["u"].double(), rec.extra["alpha"].detach().double()
+        lt = log_tol(env, al, rec.extra.get("scale", 0.0))
+        skip = [j for j in range(rec.n) if math.isfinite(float(al[j])) and
+                abs(float(u[j]) - float(al[j])) <= float(al[j]) * math.expm1(min(float(lt[j]), 50.0)) + 1e-6]
+        chk.tag("trace_eval_rows_skipped_ambiguous", len(skip))
+    items = resp[4:].split(";")
+    bad = None
+    if len(items) != len(rec.eval_outs()):
+        chk.disagree(case, len(rec.eval_outs()), len(items), "number of evaluated outputs")
+        return
+    for item, (lab, nd, t, req) in zip(items, rec.eval_outs()):
+        try:
+            _, sh, d = item.split(":")
+            vals = [parse_float(x) for x in split_ne(d)]
+        except Exception:  # noqa
+            bad = f"{lab}: unparsable `{item[:60]}`"
+            break
+        if sh != tr.shp(t.shape):
+            bad = f"{lab}: shape {sh} vs torch {tr.shp(t.shape)}"
+            break
+        sat = rec.extra.get("sat", 0)
+        msg = tensor_close(env, vals, t, skip if lab.endswith((":new", ":accepted")) else (),
+                           log_domain=rec.extra.get("scale", 0.0) if lab.endswith(":alpha") else None,
+                           extra_abs=0.7 * sat if lab.startswith("nll_attach") else 0.0)
+        if msg:
+            bad = f"{lab}: {msg}"
+            break
+    chk.tag("trace_eval", f"{rec.what.split(':')[0]}:{'agrees' if bad is None else 'DIFFERS'}")
+    if rec.extra.get("sat"):
+        chk.tag("trace_eval_saturated_bernoulli_cells", "some")
+    if bad is not None:
+        chk.disagree(case, "real tensors", bad, f"the Lean evaluation of the lowered program of {rec.what} does not reproduce the real tensors "
+                     "(tracer dataflow or operation table wrong)")
+
+
 def compare_model(chk, lines, expect):
     out = chk.model(lines)
+    seen_ops = set()
     for resp, (kind, case, info) in zip(out, expect):
+        if kind.startswith(("trace", "evaltrace")):
+            if resp.startswith("err") or resp == "bad-request":
+                chk.disagree(case, "ran", resp, f"model refuses the {kind} request")
+            else:
+                handle_trace_response(chk, ENV[0], resp, kind, case, info, seen_ops)
+            continue
         if resp.startswith("err") or resp == "bad-request":
             chk.disagree(case, "ran", resp, f"model refuses the {kind} request")
             continue
@@ -681,14 +1378,16 @@ def compare_model(chk, lines, expect):
             chk.disagree(case, "?", resp[:200], f"unparsable model response ({type(e).__name__})")
 
 
+ENV = [None]
 ALGOS = [("scipy_minimize", {"n_jobs": 1}), ("mode_posterior", {"n_iter": 40}), ("mean_posterior", {"n_iter": 40})]
 P_MODELS = ["logistic_diag_noise", "linear_scalar_noise", "joint_diagonal", "univariate_logistic", "univariate_joint",
             "logistic_binary", "shared_speed_logistic_diag_noise"]
 
 
 def run(chk: core.Check):
-    env = s3._imports()
-    chk.rule = ("metamorphic cases on fitted models with cohorts of 3-5 individuals drawn from the test data: terms + one step of every "
+    env = ENV[0] = s3._imports()
+    chk.rule = ("recorded programs: for every model kind the individual-level State variables and one sampler step are recorded on cohorts "
+                "of 3, 5 (with missing values) and 48 individuals, analysed and evaluated in Lean; metamorphic cases on fitted models with cohorts of 3-5 individuals drawn from the test data: terms + one step of every "
                 "individual sampler (base / others' data replaced / re-ordered / alone, same recorded draws by position), personalisation "
                 "with scipy_minimize, mode_posterior, mean_posterior (base / others replaced / re-ordered), scipy_minimize n_jobs 1 vs 2 on "
                 "fresh workers. A case is non-trivial when it compares at least one per-individual output; distinct by (kind, model, seed[, algo]).")
@@ -700,6 +1399,10 @@ def run(chk: core.Check):
     for name in [n for n in s3.MODELS if "/" not in n]:   # (C03's mixture entry is C03's business)
         for _ in range(2 if quick else 6):
             case_terms_and_sampler(chk, env, name, rng.randrange(1, 10 ** 6), lines, expect)
+    case_synthetic(chk, env, lines, expect)
+    for name in TRACE_MODELS + ([] if quick else list(TRACE_EXTRA)):
+        for _ in range(1 if quick else 2):
+            case_trace(chk, env, name, rng.randrange(1, 10 ** 6), lines, expect, with_eval=True, samplers=1 if quick else 3, big=True)
     pm = list(P_MODELS)
     rng.shuffle(pm)
     for name in (pm[:3] if quick else pm):
@@ -724,10 +1427,14 @@ def replay_case(chk, env, case, lines, expect):
         case_personalize(chk, env, case["model"], case["seed"], [(case["algo"], case["kw"])])
     elif k == "n_jobs":
         case_njobs(chk, env, case["model"], case["seed"], [case.get("worker_hashseed", 1)])
+    elif k == "trace":
+        case_trace(chk, env, case["model"], case["seed"], lines, expect, with_eval=True, samplers=3, big=True)
+    elif k == "trace-synthetic":
+        case_synthetic(chk, env, lines, expect)
 
 
 def replay(chk: core.Check, payload):
-    env = s3._imports()
+    env = ENV[0] = s3._imports()
     case = payload.get("case") or (payload.get("disagreements") or [{}])[0].get("case")
     if not case:
         chk.note("replay file has no case")
